@@ -134,3 +134,24 @@ func (w *WorldDesc) AllMethods() []*MethodDesc {
 	}
 	return out
 }
+
+// CachedOpt returns one option VALUE per distinct (service, kind, key, value) within a
+// run: a caller that builds an option once and passes it to several calls (the usual way
+// to carry e.g. an Authorization header) is what the generated option constructors must
+// tolerate.
+func CachedOpt(key string, mk func() any) any {
+	k := Current
+	if k == nil {
+		return mk()
+	}
+	if k.optCache == nil {
+		k.optCache = map[string]any{}
+	}
+	if v, ok := k.optCache[key]; ok {
+		k.Stats.Probe("call_option_value_reused")
+		return v
+	}
+	v := mk()
+	k.optCache[key] = v
+	return v
+}
